@@ -285,6 +285,16 @@ class UnitRegistry:
         equiv = sorted(set(equiv))
         return equiv
 
+    def __setstate__(self, state):
+        # unpickled dimension symbols equal the library's singletons but are
+        # not identical to them; units built from this registry must carry
+        # the singletons
+        self.__dict__.update(state)
+        self.lut = {
+            k: (v[0], _intern_dimensions(v[1])) + tuple(v[2:])
+            for k, v in self.lut.items()
+        }
+
     def __deepcopy__(self, memodict=None):
         # the table's values are immutable tuples; copying the dict is enough,
         # keeps the dimension singletons, and must not re-apply the defaults
